@@ -204,18 +204,7 @@ pub fn cases_for(prop: &str, tier: &str, seed: u64, shard: (usize, usize)) -> (V
             }
             tmp.extend(exhaustive_family(prop, tier, &mut rng, shard, &pool));
             if prop == "C06" || prop == "C05" {
-                let minimal = pool.iter().position(|s| s.name == "minimal").unwrap();
-                let mut idx = 0usize;
-                for k in 1..=3usize {
-                    for edges in 0..(1u32 << (k * k)) {
-                        idx += 1;
-                        if idx % shard.1 != shard.0 || (tier != "thorough" && k == 3 && !rng.pct(25)) {
-                            continue;
-                        }
-                        let doc = cyclic_doc(k, edges, rng.below(5), rng.below(3), rng.below(3), rng.below(8) as u32).print();
-                        tmp.push(Case { id: format!("g{}x{}", shard.0, idx), family: format!("fragment-graph-{}", k), schema: minimal, op: "validate".into(), doc: Some(doc), extra: vec![], note: String::new() });
-                    }
-                }
+                tmp.extend(exhaustive_family("GRAPH", tier, &mut rng, shard, &pool));
             }
             for mut c in tmp {
                 c.extra = vec![format!("(plan {})", rules.join(" "))];
@@ -234,7 +223,7 @@ pub fn cases_for(prop: &str, tier: &str, seed: u64, shard: (usize, usize)) -> (V
                     doc: Some(doc.print()), extra: vec![all.clone()], note: String::new() });
             }
             // the targeted families of the rule properties (their spec-valid members count here)
-            for fp in ["C05", "C06", "C07", "C08", "C10", "C11"] {
+            for fp in ["C05", "C06", "C07", "C08", "C10", "C11", "GRAPH"] {
                 for mut c in exhaustive_family(fp, tier, &mut rng, shard, &pool) {
                     if tier != "thorough" && !rng.pct(20) {
                         continue;
@@ -262,7 +251,7 @@ pub fn cases_for(prop: &str, tier: &str, seed: u64, shard: (usize, usize)) -> (V
             let mut tmp: Vec<Case> = vec![];
             family_random_docs(&mut tmp, &pool, &mut rng, n / 3, "validate", &format!("rnd{}x", shard.0), false);
             // the targeted families of the rule properties, all rules switched on
-            for fp in ["C05", "C06", "C07", "C08", "C10", "C11"] {
+            for fp in ["C05", "C06", "C07", "C08", "C10", "C11", "GRAPH"] {
                 for mut c in exhaustive_family(fp, tier, &mut rng, shard, &pool) {
                     if tier != "thorough" && !rng.pct(20) {
                         continue;
@@ -303,17 +292,25 @@ pub fn cases_for(prop: &str, tier: &str, seed: u64, shard: (usize, usize)) -> (V
             }
         }
         "C14" => {
-            let n = budget(tier, 1300, 30000) / shard.1;
+            let n = budget(tier, 4000, 80000) / shard.1;
             for i in 0..n {
                 let mut si_idx = rng.below(pool.len() - 1);
-                // valid, mutated and grammar-random documents; every 8th: a structured merge case
-                let structured = i % 8 == 7;
+                // valid, mutated and grammar-random documents; every 4th: a structured merge case
+                let structured = i % 4 == 3;
+                let source = rng.below(3);
                 if structured {
-                    si_idx = pool.iter().position(|s| s.name == "synthetic").unwrap();
+                    si_idx = pool.iter().position(|s| s.name == if source == 2 { "minimal" } else { "synthetic" }).unwrap();
                 }
                 let si = &pool[si_idx];
                 let gdoc: GDoc = match i % 4 {
-                    _ if structured => crate::families::merge_cases(&mut rng, 1).pop().unwrap(),
+                    _ if structured => match source {
+                        0 => crate::families::merge_cases(&mut rng, 1).pop().unwrap(),
+                        1 => {
+                            let all = crate::families::merge_shape_cases();
+                            all[rng.below(all.len())].clone()
+                        }
+                        _ => graph4_doc(&mut rng),
+                    },
                     0 | 1 => crate::genvalid::VGen::new(rng.fork(), si, 2 + rng.below(3)).doc(),
                     2 => {
                         let base = crate::genvalid::VGen::new(rng.fork(), si, 2 + rng.below(3)).doc();
@@ -322,7 +319,11 @@ pub fn cases_for(prop: &str, tier: &str, seed: u64, shard: (usize, usize)) -> (V
                     }
                     _ => Gen::new(rng.fork(), si, GenCfg::mostly_valid()).gen_doc(),
                 };
-                let kind = crate::rewrite::REWRITES[(i + shard.0) % crate::rewrite::REWRITES.len()];
+                let mut kind = crate::rewrite::REWRITES[(i + shard.0) % crate::rewrite::REWRITES.len()];
+                if structured && rng.pct(60) {
+                    // the structured merge cases are about order: permute selections / definitions
+                    kind = if rng.pct(70) { "perm-selections" } else { "perm-definitions" };
+                }
                 let text = gdoc.print();
                 let mut extra = vec![format!("(kind {})", kind)];
                 if kind.starts_with("schema-") {
@@ -546,6 +547,35 @@ fn wrap(inner: Vec<GSel>, depth: usize, style: usize) -> Vec<GSel> {
 }
 
 /// fragment graph given as adjacency bit matrix over k fragments on type T of the `minimal` schema
+/// four fragments on the one-type schema: acyclic half of the time (edges only along a random order
+/// of the fragments, so that definition order and spread order are independent of the DAG's order),
+/// then all fragments spread from the operation and no conflicting noise: valid documents
+pub fn graph4_doc(rng: &mut Rng) -> GDoc {
+    let mut edges = (rng.next() & 0xFFFF) as u32;
+    let acyclic = rng.pct(50);
+    if acyclic {
+        let mut perm = [0usize, 1, 2, 3];
+        for a in (1..4).rev() {
+            let b = rng.below(a + 1);
+            perm.swap(a, b);
+        }
+        let mut m = 0u32;
+        for f in 0..4 {
+            for g in 0..4 {
+                if perm[f] < perm[g] {
+                    m |= 1 << (f * 4 + g);
+                }
+            }
+        }
+        edges &= m;
+    }
+    if acyclic {
+        cyclic_doc(4, edges, rng.below(3), rng.below(3), 1, (rng.below(4) * 2) as u32)
+    } else {
+        cyclic_doc(4, edges, rng.below(3), rng.below(3), rng.below(3), rng.below(8) as u32)
+    }
+}
+
 pub fn cyclic_doc(k: usize, edges: u32, depth: usize, style: usize, reach: usize, noise: u32) -> GDoc {
     let f = |n: &str| GSel::Field { alias: None, name: n.into(), args: vec![], dirs: vec![], sels: vec![] };
     let mut defs = vec![];
@@ -801,6 +831,9 @@ pub fn exhaustive_family(prop: &str, tier: &str, rng: &mut Rng, shard: (usize, u
             for d in subscription_roots() {
                 docs.push(("subscription-roots".to_string(), d.print()));
             }
+            for d in subscription_graph_cases(rng, budget(tier, 2000, 40000)) {
+                docs.push(("subscription-graphs".to_string(), d.print()));
+            }
         }
         "C05" => {
             for d in merge_cases(rng, budget(tier, 1500, 40000)) {
@@ -808,6 +841,9 @@ pub fn exhaustive_family(prop: &str, tier: &str, rng: &mut Rng, shard: (usize, u
             }
             for d in merge_cycle_cases(rng, budget(tier, 1500, 40000)) {
                 docs.push(("merge-cycles".to_string(), d.print()));
+            }
+            for d in merge_shape_cases() {
+                docs.push(("merge-shapes".to_string(), d.print()));
             }
         }
         "C10" => {
@@ -827,6 +863,25 @@ pub fn exhaustive_family(prop: &str, tier: &str, rng: &mut Rng, shard: (usize, u
         _ => {}
     }
     let mut out = vec![];
+    if prop == "GRAPH" {
+        // fragment-spread graphs on the one-type schema: every edge set on 1..3 fragments, sampled on 4
+        let minimal = pool.iter().position(|s| s.name == "minimal").unwrap();
+        let mut idx = 0usize;
+        for k in 1..=3usize {
+            for edges in 0..(1u32 << (k * k)) {
+                idx += 1;
+                if idx % shard.1 != shard.0 || (tier != "thorough" && k == 3 && !rng.pct(25)) {
+                    continue;
+                }
+                let doc = cyclic_doc(k, edges, rng.below(5), rng.below(3), rng.below(3), rng.below(8) as u32).print();
+                out.push(Case { id: format!("g{}x{}", shard.0, idx), family: format!("fragment-graph-{}", k), schema: minimal, op: "validate".into(), doc: Some(doc), extra: vec![], note: String::new() });
+            }
+        }
+        for j in 0..budget(tier, 1600, 40000) / shard.1 {
+            let doc = graph4_doc(rng).print();
+            out.push(Case { id: format!("g4{}x{}", shard.0, j), family: "fragment-graph-4".into(), schema: minimal, op: "validate".into(), doc: Some(doc), extra: vec![], note: String::new() });
+        }
+    }
     if prop == "C06" {
         // a fragment on T inside a selection set of type P, for all pairs of composite types of every pool schema
         let mut i = 0usize;
